@@ -3,8 +3,15 @@
 package c05
 
 import (
+	"crypto/ecdsa"
+	"crypto/elliptic"
+	crand "crypto/rand"
+	"crypto/x509"
+	"crypto/x509/pkix"
 	"encoding/base64"
+	"encoding/pem"
 	"fmt"
+	"math/big"
 	"math/rand/v2"
 	"net"
 	"net/netip"
@@ -15,6 +22,7 @@ import (
 	"strings"
 	"time"
 
+	"github.com/magisterquis/curlrevshell/lib/sstls"
 	"github.com/magisterquis/curlrevshell/verifharness/mon"
 	"github.com/magisterquis/curlrevshell/verifharness/mon/bk"
 	"github.com/magisterquis/curlrevshell/verifharness/mon/crs"
@@ -937,11 +945,11 @@ func genInCase(r *mon.Run, i int) inCase {
 		FDir:   fdirForms[rng.IntN(len(fdirForms))],
 		IPv6:   rng.IntN(2) == 0,
 		Tmpl:   []string{"default", "default", "custom"}[rng.IntN(3)],
-		Cache:  []string{"off", "off", "file"}[(i/len(inprocForms))%3],
+		Cache:  []string{"off", "off", "file", "expired-file", "file", "notyet-file"}[(i/len(inprocForms))%6],
 		Starts: 1,
 		Shell:  rng.IntN(3) == 0,
 	}
-	if c.Cache == "file" {
+	if c.Cache != "off" {
 		c.Starts = 2 + rng.IntN(2)
 	}
 	return c
@@ -950,8 +958,19 @@ func genInCase(r *mon.Run, i int) inCase {
 func inCaseRun(r *mon.Run, fx fixtures, i int, c inCase) {
 	rng := r.Rng("inrun", i)
 	cache := ""
-	if c.Cache == "file" {
+	if c.Cache != "off" {
 		cache = filepath.Join(r.Work, fmt.Sprintf("in%d", i), "cert.txtar")
+	}
+	cachedPin := ""
+	if c.Cache == "expired-file" || c.Cache == "notyet-file" {
+		// a cache written long ago (certificate past its NotAfter) or by a machine whose clock
+		// ran ahead (not yet valid): still the identity every start must serve and advertise
+		var err error
+		if cachedPin, err = writeDatedCache(cache, c.Cache == "expired-file"); err != nil {
+			r.Inconclusive("cannot prepare a dated cache: " + err.Error())
+			return
+		}
+		r.Count("dated_cache_files:"+c.Cache, 1)
 	}
 	var pins, advs []string
 	for k := 0; k < c.Starts; k++ {
@@ -973,6 +992,9 @@ func inCaseRun(r *mon.Run, fx fixtures, i int, c inCase) {
 		pins, advs = append(pins, pin), append(advs, adv)
 	}
 	r.Eval(1)
+	if cachedPin != "" && len(pins) > 0 && (pins[0] != cachedPin || advs[0] != cachedPin) {
+		r.Violate(engIn, i, "advertised-fp-differs-from-served:dated-cache", fmt.Sprintf("the certificate cache holds the key with pin %s (certificate %s) but the start serves %s and advertises %s", cachedPin, c.Cache, pins[0], advs[0]), map[string]any{"config": c})
+	}
 	if c.Starts >= 2 {
 		r.Count("restart_sequences", 1)
 		for k := 1; k < c.Starts; k++ {
@@ -1144,4 +1166,37 @@ func Run(r *mon.Run) {
 	r.Floor("fingerprints_compared:"+siteI, q(50, 500))
 	r.Floor("fingerprints_compared:"+siteO, q(50, 500))
 	r.Floor("fingerprints_compared:"+siteCustom, q(20, 200))
+}
+
+// writeDatedCache writes a certificate cache whose certificate is either
+// expired or not yet valid and returns the pin of its key.
+func writeDatedCache(path string, expired bool) (string, error) {
+	priv, err := ecdsa.GenerateKey(elliptic.P256(), crand.Reader)
+	if err != nil {
+		return "", err
+	}
+	nb, na := time.Now().AddDate(-3, 0, 0), time.Now().AddDate(-1, 0, 0)
+	if !expired {
+		nb, na = time.Now().AddDate(1, 0, 0), time.Now().AddDate(5, 0, 0)
+	}
+	tmpl := x509.Certificate{SerialNumber: big.NewInt(time.Now().UnixNano()), Subject: pkix.Name{CommonName: "sstls"}, NotBefore: nb, NotAfter: na,
+		KeyUsage: x509.KeyUsageDigitalSignature, ExtKeyUsage: []x509.ExtKeyUsage{x509.ExtKeyUsageServerAuth}, BasicConstraintsValid: true}
+	der, err := x509.CreateCertificate(crand.Reader, &tmpl, &tmpl, &priv.PublicKey, priv)
+	if err != nil {
+		return "", err
+	}
+	kb, err := x509.MarshalPKCS8PrivateKey(priv)
+	if err != nil {
+		return "", err
+	}
+	certPEM := pem.EncodeToMemory(&pem.Block{Type: "CERTIFICATE", Bytes: der})
+	keyPEM := pem.EncodeToMemory(&pem.Block{Type: "PRIVATE KEY", Bytes: kb})
+	if err := sstls.SaveCertificate(path, certPEM, keyPEM); err != nil {
+		return "", err
+	}
+	leaf, err := x509.ParseCertificate(der)
+	if err != nil {
+		return "", err
+	}
+	return hk.Pin(leaf), nil
 }
